@@ -4,12 +4,26 @@
   Helper lemmas: `Irc/InvProofs/MembershipLemmas.lean`.
 -/
 import Irc.InvProofs.MembershipLemmas
+import Irc.InvCheck
 
 namespace Irc
 
+namespace Memb
+/-- `m` is a legitimate victim of a KICK by `n` on `channel`: the kicker is at least
+    half-operator, the victim is a member that is not protected/founder, and a kicker that is
+    only half-operator cannot kick (half-)operators. -/
+def KickVictim (w : World) (channel n m : Str) : Prop :=
+  ∃ C cn cm, Map.lookup channel w.channels = some C ∧ Map.lookup n C.users = some cn ∧
+    cn.isHalfOperator = true ∧ Map.lookup m C.users = some cm ∧ cm.isProtected = false ∧
+    (cm.isHalfOperator = false ∨ cn.isOnlyHalfOperator = false)
+
+end Memb
+
+open Memb
+
 /-! ## PART -/
 
-theorem part_all {cfg : Cfg} {c : Nat} {channels : List Str} {reason : Option Str} {x : Ctx}
+theorem Memb.part_all {cfg : Cfg} {c : Nat} {channels : List Str} {reason : Option Str} {x : Ctx}
     (h : InvCore x.w) (hl : Live x.w c) (ha : (x.conn c).authenticated = true) :
     ∃ n, (x.conn c).nick = some n ∧
       MemInv (processPart cfg c channels reason x).w ∧
@@ -20,7 +34,7 @@ theorem part_all {cfg : Cfg} {c : Nat} {channels : List Str} {reason : Option St
   refine ⟨n, hn, ?_⟩
   rw [processPart_eq, hn]
   dsimp only
-  obtain ⟨h1, f1, e1⟩ := part_fold cfg (x.conn c) n reason channels x h.memInv
+  obtain ⟨h1, f1, e1⟩ := part_fold cfg (x.conn c) n reason channels x (InvCore.memInv h)
   have hc : Map.contains n (channels.foldl (partStep cfg (x.conn c) n reason) x).w.users = true := by
     rw [f1.contains]; exact (Map.contains_iff _ _).mpr ⟨u, hu⟩
   rw [if_pos hc]
@@ -31,7 +45,7 @@ theorem invCore_processPart {cfg : Cfg} {c : Nat} {channels : List Str} {reason 
     InvCore (processPart cfg c channels reason x).w ∧
     SameConnIds x.w (processPart cfg c channels reason x).w := by
   obtain ⟨n, _, h1, f1, _⟩ := part_all (cfg := cfg) (channels := channels) (reason := reason) h hl ha
-  exact ⟨h.of_frame f1 h1, f1.sameConnIds⟩
+  exact ⟨InvCore.of_frame h f1 h1, f1.sameConnIds⟩
 
 /-- PART removes exactly the memberships of the sender `n` in the listed channels; nobody
     else's membership changes (channel side; the user side follows by `InvCore.memberSym`). -/
@@ -43,8 +57,7 @@ theorem part_membership_effect {cfg : Cfg} {c : Nat} {channels : List Str} {reas
   obtain ⟨n, hn, _, _, e⟩ := part_all (cfg := cfg) (channels := channels) (reason := reason) h hl ha
   refine ⟨n, hn, fun ch m => ?_⟩
   rw [e]
-  simp only [Bool.and_eq_true, Bool.not_eq_true', Bool.and_eq_false_iff, decide_eq_false_iff_not,
-    decide_eq_true_eq]
+  simp only [Bool.and_eq_true, Bool.not_eq_true', Bool.and_eq_false_iff, decide_eq_false_iff_not]
   constructor
   · rintro ⟨h1, h2⟩; exact ⟨h1, fun ⟨a, b⟩ => h2.elim (· a) (· b)⟩
   · rintro ⟨h1, h2⟩
@@ -52,5 +65,271 @@ theorem part_membership_effect {cfg : Cfg} {c : Nat} {channels : List Str} {reas
     by_cases a : ch ∈ channels
     · exact Or.inr (fun b => h2 ⟨a, b⟩)
     · exact Or.inl a
+
+/-! ## KICK -/
+
+theorem Memb.kick_all {cfg : Cfg} {c : Nat} {channel : Str} {kickUsers : List Str} {comment : Option Str}
+    {x : Ctx} (h : InvCore x.w) (hl : Live x.w c) (ha : (x.conn c).authenticated = true) :
+    ∃ n, (x.conn c).nick = some n ∧
+      MemInv (processKick cfg c channel kickUsers comment x).w ∧
+      Frame x.w (processKick cfg c channel kickUsers comment x).w ∧
+      ∀ ch m, ((processKick cfg c channel kickUsers comment x).w.memOf ch m = true ↔
+        (x.w.memOf ch m = true ∧ ¬ (ch = channel ∧ m ∈ kickUsers ∧ KickVictim x.w channel n m))) := by
+  obtain ⟨n, u, hn, hu, _⟩ := sender_of_auth h hl ha
+  refine ⟨n, hn, ?_⟩
+  have hM := (InvCore.memInv h)
+  rw [processKick_eq, hn]
+  dsimp only
+  cases hC : Map.lookup channel x.w.channels with
+  | none =>
+    refine ⟨hM, Frame.refl _, fun ch m => ?_⟩
+    simp only [Ctx.reply_w, iff_self_and]
+    rintro _ ⟨_, _, C, _, _, hC', _⟩
+    rw [hC] at hC'; cases hC'
+  | some C =>
+    dsimp only
+    cases hcn : Map.lookup n C.users with
+    | none =>
+      refine ⟨hM, Frame.refl _, fun ch m => ?_⟩
+      simp only [Ctx.reply_w, iff_self_and]
+      rintro _ ⟨_, _, C', cn, _, hC', hcn', _⟩
+      rw [hC] at hC'; cases hC'
+      rw [hcn] at hcn'; cases hcn'
+    | some chum =>
+      dsimp only
+      cases hho : chum.isHalfOperator with
+      | false =>
+        refine ⟨hM, Frame.refl _, fun ch m => ?_⟩
+        simp only [Bool.false_eq_true, ↓reduceIte, Ctx.reply_w, iff_self_and]
+        rintro _ ⟨_, _, C', cn, _, hC', hcn', hh, _⟩
+        rw [hC] at hC'; cases hC'
+        rw [hcn] at hcn'; cases hcn'
+        rw [hho] at hh; cases hh
+      | true =>
+        simp only [↓reduceIte]
+        obtain ⟨s1, s2⟩ := kickSelect_spec (x.conn c).clientName channel C chum.isOnlyHalfOperator
+          kickUsers [] List.nodup_nil
+        have hmem : ∀ k, k ∈ (kickSelect (x.conn c).clientName channel C chum.isOnlyHalfOperator
+            kickUsers []).1 → x.w.memOf channel k = true := by
+          intro k hk
+          rcases (s2 k).mp hk with a | ⟨_, cm, hcm, _⟩
+          · cases a
+          · rw [World.memOf_of_lookup hC]
+            exact (Map.contains_iff _ _).mpr ⟨cm, hcm⟩
+        rw [kickMain_w _ _ _ _ _ _ _ hM s1 hmem]
+        obtain ⟨h2, f2, e2⟩ := kick_remove_fold channel _ x.w hM s1 hmem
+        refine ⟨h2, f2, fun ch m => ?_⟩
+        rw [e2]
+        simp only [Bool.and_eq_true, Bool.not_eq_true', Bool.and_eq_false_iff,
+          decide_eq_false_iff_not]
+        have key : m ∈ (kickSelect (x.conn c).clientName channel C chum.isOnlyHalfOperator
+            kickUsers []).1 ↔ (m ∈ kickUsers ∧ KickVictim x.w channel n m) := by
+          rw [s2 m]
+          constructor
+          · rintro (a | ⟨a, cm, hcm, p1, p2⟩)
+            · cases a
+            · exact ⟨a, C, chum, cm, hC, hcn, hho, hcm, p1, p2⟩
+          · rintro ⟨a, C', cn', cm, hC', hcn', _, hcm, p1, p2⟩
+            rw [hC] at hC'; cases hC'
+            rw [hcn] at hcn'; cases hcn'
+            exact Or.inr ⟨a, cm, hcm, p1, p2⟩
+        rw [key]
+        constructor
+        · rintro ⟨h1, h2⟩; exact ⟨h1, fun ⟨a, b⟩ => h2.elim (· a) (· b)⟩
+        · rintro ⟨h1, h2⟩
+          refine ⟨h1, ?_⟩
+          by_cases a : ch = channel
+          · exact Or.inr (fun b => h2 ⟨a, b⟩)
+          · exact Or.inl a
+
+theorem invCore_processKick {cfg : Cfg} {c : Nat} {channel : Str} {kickUsers : List Str}
+    {comment : Option Str} {x : Ctx}
+    (h : InvCore x.w) (hl : Live x.w c) (ha : (x.conn c).authenticated = true) :
+    InvCore (processKick cfg c channel kickUsers comment x).w ∧
+    SameConnIds x.w (processKick cfg c channel kickUsers comment x).w := by
+  obtain ⟨n, _, h1, f1, _⟩ :=
+    kick_all (cfg := cfg) (channel := channel) (kickUsers := kickUsers) (comment := comment) h hl ha
+  exact ⟨InvCore.of_frame h f1 h1, f1.sameConnIds⟩
+
+/-- KICK removes exactly the memberships `(channel, m)` of the listed legitimate victims;
+    nobody else's membership changes. -/
+theorem kick_membership_effect {cfg : Cfg} {c : Nat} {channel : Str} {kickUsers : List Str}
+    {comment : Option Str} {x : Ctx}
+    (h : InvCore x.w) (hl : Live x.w c) (ha : (x.conn c).authenticated = true) :
+    ∃ n, (x.conn c).nick = some n ∧ ∀ ch m,
+      ((processKick cfg c channel kickUsers comment x).w.memOf ch m = true ↔
+        (x.w.memOf ch m = true ∧ ¬ (ch = channel ∧ m ∈ kickUsers ∧ KickVictim x.w channel n m))) := by
+  obtain ⟨n, hn, _, _, e⟩ :=
+    kick_all (cfg := cfg) (channel := channel) (kickUsers := kickUsers) (comment := comment) h hl ha
+  exact ⟨n, hn, e⟩
+
+/-! ## JOIN -/
+
+theorem Memb.join_all {cfg : Cfg} {c : Nat} {channels : List Str} {keys : Option (List Str)} {x : Ctx}
+    (h : InvCore x.w) (hl : Live x.w c) (ha : (x.conn c).authenticated = true) :
+    ∃ n u, (x.conn c).nick = some n ∧ Map.lookup n x.w.users = some u ∧
+      MemInv (processJoin cfg c channels keys x).w ∧
+      Frame x.w (processJoin cfg c channels keys x).w ∧
+      ∀ ch m, (processJoin cfg c channels keys x).w.memOf ch m =
+        (x.w.memOf ch m ||
+          (decide (m = n) && joined (joinDecisions cfg c channels keys x n u) channels ch)) := by
+  obtain ⟨n, u, hn, hu, _⟩ := sender_of_auth h hl ha
+  refine ⟨n, u, hn, hu, ?_⟩
+  rw [processJoin_eq, hn]
+  dsimp only
+  rw [hu]
+  dsimp only
+  have hM := InvCore.memInv h
+  have hdec : DecOK x.w n (joinDecisions cfg c channels keys x n u) channels :=
+    joinDecide_ok cfg x.w (x.conn c) n u.invitedTo channels (joinKeyList keys) u.channels.length
+  obtain ⟨h1, f1, e1⟩ := joinApply_inv x.w n _ channels x.w hdec hM
+    ((Map.contains_iff _ _).mpr ⟨u, hu⟩) (JoinInv.init x.w n)
+  rw [joinAnnounce_w]
+  · simp only [Ctx.modifyW_w, reply_foldl_w]
+    exact ⟨h1, f1, e1⟩
+  · simp only [Ctx.modifyW_w, reply_foldl_w]
+    exact h1
+  · simp only [Ctx.modifyW_w, reply_foldl_w]
+    intro ch hj
+    have : (joinApply n (joinDecisions cfg c channels keys x n u) channels x.w).memOf ch n = true := by
+      rw [e1, hj]; simp
+    obtain ⟨C, hC, _⟩ := (World.memOf_iff _ _ _).mp this
+    exact (Map.contains_iff _ _).mpr ⟨C, hC⟩
+
+theorem invCore_processJoin {cfg : Cfg} {c : Nat} {channels : List Str} {keys : Option (List Str)}
+    {x : Ctx} (h : InvCore x.w) (hl : Live x.w c) (ha : (x.conn c).authenticated = true) :
+    InvCore (processJoin cfg c channels keys x).w ∧
+    SameConnIds x.w (processJoin cfg c channels keys x).w := by
+  obtain ⟨n, u, _, _, h1, f1, _⟩ := join_all (cfg := cfg) (channels := channels) (keys := keys) h hl ha
+  exact ⟨InvCore.of_frame h f1 h1, f1.sameConnIds⟩
+
+/-- JOIN adds exactly the memberships `(ch, n)` of the sender `n` for the listed channels `ch`
+    whose admission decision (`joinDecide`, taken against the pre-state) is `true`; nothing else
+    changes.  `Memb.joinDecisions … n u` is the decision list, `p.1.1` the join flag. -/
+theorem join_membership_effect {cfg : Cfg} {c : Nat} {channels : List Str} {keys : Option (List Str)}
+    {x : Ctx} (h : InvCore x.w) (hl : Live x.w c) (ha : (x.conn c).authenticated = true) :
+    ∃ n u, (x.conn c).nick = some n ∧ Map.lookup n x.w.users = some u ∧ ∀ ch m,
+      ((processJoin cfg c channels keys x).w.memOf ch m = true ↔
+        (x.w.memOf ch m = true ∨
+          (m = n ∧ ∃ p, p ∈ (joinDecisions cfg c channels keys x n u).zip channels ∧
+            p.1.1 = true ∧ p.2 = ch))) := by
+  obtain ⟨n, u, hn, hu, _, _, e⟩ := join_all (cfg := cfg) (channels := channels) (keys := keys) h hl ha
+  refine ⟨n, u, hn, hu, fun ch m => ?_⟩
+  rw [e]
+  simp only [joined, Bool.or_eq_true, Bool.and_eq_true, decide_eq_true_eq, List.any_eq_true]
+
+/-! ## non-vacuity: a concrete world on which all three theorems apply with visible effect -/
+
+namespace Memb.Ex
+
+def mkUser (owner : Nat) : User :=
+  { hostname := [], name := [], realname := [], source := [], modes := {}, history := ⟨[], [], []⟩,
+    owner := owner }
+def mkConn (id : Nat) (nick : Str) : Conn :=
+  { id := id, hostname := [], nick := some nick, source := nick, authenticated := true,
+    registered := true, hasSender := false, hasQuitSender := false, hasPingSender := false }
+
+def na : Str := ['a']
+def nb : Str := ['b']
+def hc : Str := ['#', 'c']
+
+/-- two registered users `a` (connection 1) and `b` (connection 2), no channels -/
+def w0 : World :=
+  { users := [(na, mkUser 1), (nb, mkUser 2)], conns := [mkConn 1 na, mkConn 2 nb],
+    connsCount := 2, maxUsers := 2 }
+
+theorem w0_users {n : Str} {u : User} (h : Map.lookup n w0.users = some u) :
+    (n = na ∧ u = mkUser 1) ∨ (n = nb ∧ u = mkUser 2) := by
+  simp only [w0, Map.lookup] at h
+  split at h
+  · rename_i e; cases h; exact Or.inl ⟨e.symm, rfl⟩
+  · split at h
+    · rename_i e; cases h; exact Or.inr ⟨e.symm, rfl⟩
+    · cases h
+
+theorem w0_conns {cn : Conn} (h : cn ∈ w0.conns) : cn = mkConn 1 na ∨ cn = mkConn 2 nb := by
+  simpa [w0] using h
+
+theorem invCore_w0 : InvCore w0 where
+  noPanic := rfl
+  usersNodup := by decide
+  chansNodup := by decide
+  connsNodup := by decide
+  membersNodup := fun ch C h => by cases h
+  userChansNodup := fun n u h => by
+    rcases w0_users h with ⟨_, rfl⟩ | ⟨_, rfl⟩ <;> exact List.nodup_nil
+  authOwns := fun cn hcn _ => by
+    rcases w0_conns hcn with rfl | rfl
+    · exact ⟨na, mkUser 1, rfl, rfl, rfl⟩
+    · exact ⟨nb, mkUser 2, rfl, rfl, rfl⟩
+  userOwned := fun n u h => by
+    rcases w0_users h with ⟨rfl, rfl⟩ | ⟨rfl, rfl⟩
+    · exact ⟨mkConn 1 na, by simp [w0], rfl, rfl, rfl⟩
+    · exact ⟨mkConn 2 nb, by simp [w0], rfl, rfl, rfl⟩
+  memberSym := fun n u ch h => by
+    rcases w0_users h with ⟨rfl, rfl⟩ | ⟨rfl, rfl⟩ <;>
+      exact ⟨fun h => (by cases h), fun ⟨C, h, _⟩ => (by cases h)⟩
+  memberIsUser := fun ch C n h => by cases h
+  rankMirror := fun ch C h => by cases h
+  noEmptyAdHoc := fun ch C h => by cases h
+  invisibleCount := rfl
+  operatorsCount := rfl
+  wallopsSet := fun n => by
+    constructor
+    · intro h; cases h
+    · rintro ⟨u, h, hw⟩
+      rcases w0_users h with ⟨rfl, rfl⟩ | ⟨rfl, rfl⟩ <;> cases hw
+  maxUsers := by decide
+  resources := fun cn hcn hf => by
+    rcases w0_conns hcn with rfl | rfl <;> cases hf
+  slots := rfl
+  killedFlagged := fun n u h hk => by
+    rcases w0_users h with ⟨rfl, rfl⟩ | ⟨rfl, rfl⟩ <;> cases hk
+
+theorem live_w0_1 : Live w0 1 := ⟨mkConn 1 na, by simp [w0], rfl⟩
+theorem live_w0_2 : Live w0 2 := ⟨mkConn 2 nb, by simp [w0], rfl⟩
+
+def cfg0 : Cfg := {}
+def ctx (w : World) : Ctx := ⟨w, [], []⟩
+
+/-- `a` joins `#c` (creating it) … -/
+def w1 : World := (processJoin cfg0 1 [hc] none (ctx w0)).w
+/-- … then `b` joins `#c` -/
+def w2 : World := (processJoin cfg0 2 [hc] none (ctx w1)).w
+
+theorem inv_w1 : InvCore w1 ∧ SameConnIds w0 w1 :=
+  invCore_processJoin (x := ctx w0) invCore_w0 live_w0_1 (by decide)
+theorem inv_w2 : InvCore w2 ∧ SameConnIds w1 w2 :=
+  invCore_processJoin (x := ctx w1) inv_w1.1 (Live.of_same inv_w1.2 live_w0_2) (by decide)
+theorem live_w2_1 : Live w2 1 := Live.of_same inv_w2.2 (Live.of_same inv_w1.2 live_w0_1)
+
+-- JOIN: hypotheses satisfiable, membership really added (and only that)
+example : w0.memOf hc na = false ∧ w1.memOf hc na = true ∧ w1.memOf hc nb = false := by decide
+example : w2.memOf hc na = true ∧ w2.memOf hc nb = true := by decide
+-- the same channel twice in one JOIN (new channel / existing channel): the executable check of
+-- the invariant agrees with the theorem
+example : invCoreCheck (processJoin cfg0 1 [hc, hc] none (ctx w0)).w = [] := by decide
+example : invCoreCheck (processJoin cfg0 2 [hc, hc] none (ctx w1)).w = [] := by decide
+
+-- PART: `a` leaves `#c`
+example : InvCore (processPart cfg0 1 [hc] none (ctx w2)).w :=
+  (invCore_processPart (x := ctx w2) inv_w2.1 live_w2_1 (by decide)).1
+example : w2.memOf hc na = true ∧ (processPart cfg0 1 [hc] none (ctx w2)).w.memOf hc na = false ∧
+    (processPart cfg0 1 [hc] none (ctx w2)).w.memOf hc nb = true := by decide
+-- the last member leaves an ad-hoc channel: the channel disappears
+example : Map.lookup hc (processPart cfg0 1 [hc] none (ctx w1)).w.channels = none := by decide
+
+-- KICK: founder `a` kicks `b` (listed twice) from `#c`
+example : InvCore (processKick cfg0 1 hc [nb, nb] none (ctx w2)).w :=
+  (invCore_processKick (x := ctx w2) inv_w2.1 live_w2_1 (by decide)).1
+example : w2.memOf hc nb = true ∧ (processKick cfg0 1 hc [nb, nb] none (ctx w2)).w.memOf hc nb = false ∧
+    (processKick cfg0 1 hc [nb, nb] none (ctx w2)).w.memOf hc na = true := by decide
+example : KickVictim w2 hc na nb :=
+  ⟨_, _, _, rfl, rfl, rfl, rfl, rfl, Or.inl rfl⟩
+-- `b` (no rank) cannot kick: nothing changes
+example : (processKick cfg0 2 hc [na] none (ctx w2)).w.channels = w2.channels ∧
+    (processKick cfg0 2 hc [na] none (ctx w2)).w.users = w2.users := by decide
+
+end Memb.Ex
 
 end Irc
